@@ -283,7 +283,8 @@ func ruleClientBlock(p *Prog, r *Out) {
 		}
 		r.check(okFin && finErr >= 0 && finErr < last, "dispatch finishes a request on the frame that ends its stream, or on an error", p.pos(fd.Pos()), "if err == nil { if endsStream(fr) { finish(nil) }; return false }; ...; finish(err); return stop", "dispatch no longer resolves the request exactly when the frame ends the stream (success) or failed (with the error)")
 		// stop := GoAway-class (recorded with setLastErr) || FlowControlError; RST back unless stopping or the frame was RST_STREAM, before the slot goes back
-		def, rec, flow, rst := -1, -1, at("stop=stop||errors.Is(err,FlowControlError)"), -1
+		// a flow-control error stops the loop unless it is the code of a RST_STREAM the server sent
+		def, rec, flow, rst := -1, -1, at("stop=stop||(fr.Type()!=FrameResetStream&&errors.Is(err,FlowControlError))"), -1
 		for i, s := range tail {
 			switch x := s.(type) {
 			case *ast.AssignStmt:
@@ -307,7 +308,7 @@ func ruleClientBlock(p *Prog, r *Out) {
 			}
 		}
 		r.check(def >= 0 && rec > def && last > rec, "a connection-class error stops the read loop", p.pos(fd.Pos()), "stop := errors.As(err, &connErr) && frameType == GOAWAY; if stop { setLastErr }; return stop", "a header block that does not decode no longer ends the connection: the client carries on with a dynamic table the server does not share")
-		r.check(flow > def && def >= 0 && flow < last, "a flow-control error stops the read loop", p.pos(fd.Pos()), "stop = stop || errors.Is(err, FlowControlError) before return stop", "dispatch no longer stops the read loop on a flow-control error")
+		r.check(flow > def && def >= 0 && flow < last, "a flow-control error stops the read loop", p.pos(fd.Pos()), "stop = stop || (fr.Type() != FrameResetStream && errors.Is(err, FlowControlError)) before return stop", "dispatch no longer stops the read loop on a flow-control error this end found, and only then: the same code on a RST_STREAM the server sent ends that stream, not every request on the connection")
 		r.check(rst > flow && flow >= 0 && rst < finErr, "a response turned away is reset", p.pos(fd.Pos()), "not stopping and not an RST_STREAM from the server -> RST_STREAM(PROTOCOL_ERROR), queued before finish gives the slot back", "a response rejected as malformed is no longer answered with RST_STREAM(PROTOCOL_ERROR) on its stream before the stream's slot is given back (and only then: not for a connection error, not in answer to the server's own RST_STREAM): the server keeps the stream, and goes on sending on it")
 	}
 	_ = token.NoPos
